@@ -2,6 +2,8 @@ package main
 
 import (
 	"fmt"
+	"os"
+	"path/filepath"
 	"strings"
 
 	shared "github.com/aquilax/hranoprovod-cli/v3"
@@ -151,6 +153,50 @@ func checkC08(w *Worker) {
 		text := sb.String()
 		x.Case(fmt.Sprint(ci, text), true)
 		runOne(x, map[string]string{"food.yaml": text, "log.yaml": text}, tokCmds[ci], "tokens")
+	})
+	// ---- unreadable inputs: a directory as file, lines that do not fit the scanner's buffer (before and
+	// after the first heading, as comment, as heading, as entry, without any newline), in every role x every command
+	os.MkdirAll(filepath.Join(theApp.dir, "adir"), 0o755)
+	long := strings.Repeat("x", 70000)
+	unreadable := []struct{ name, text string }{
+		{"long-first-line", long + "\n2021/01/24:\n  r1: 1\n"},
+		{"long-comment-first", "# " + long + "\n2021/01/24:\n  r1: 1\n"},
+		{"long-heading", long + ":\n  r1: 1\n"},
+		{"long-entry-after-heading", "2021/01/24:\n  " + long + ": 1\n  r1: 1\n"},
+		{"long-without-newline", long},
+		{"long-last-line", "2021/01/24:\n  r1: 1\n  " + long},
+		{"directory", ""},
+	}
+	w.Explore("unreadable-inputs-x-commands", ExploreOpts{ShardDepth: 3, NoAudit: true}, func(x *Exec) {
+		ci := x.Choose(len(c08Cmds), "input:command")
+		ui := x.Choose(len(unreadable), "input:unreadable")
+		role := x.Choose(3, "input:role")
+		u := unreadable[ui]
+		cmd := c08Cmds[ci]
+		files := map[string]string{"food.yaml": goodBook, "log.yaml": goodLog}
+		if u.name == "directory" {
+			g := append([]string{}, cmd.Global...)
+			if role == 0 || role == 2 {
+				g = append(g, "-d", "adir")
+			}
+			if role == 1 || role == 2 {
+				g = append(g, "-l", "adir")
+			}
+			args := append([]string{}, cmd.Args...)
+			if len(args) > 0 && args[0] == "lint" && role != 0 {
+				args = []string{"lint", "adir"}
+			}
+			cmd = c08Cmd{g, args}
+		} else {
+			if role == 0 || role == 2 {
+				files["food.yaml"] = u.text
+			}
+			if role == 1 || role == 2 {
+				files["log.yaml"] = u.text
+			}
+		}
+		x.Case(fmt.Sprint(ci, ui, role), true)
+		runOne(x, files, cmd, "unreadable")
 	})
 	// ---- cycles of every length <= 4 and deep chains against every depth limit, incl. an absurd one
 	depths := []string{"1", "2", "3", "10", "100000"}
